@@ -12,6 +12,7 @@ package vault
 // (key lists comma-separated, `-` = empty)
 
 import (
+	"github.com/openbao/openbao/v2/internal/command/server"
 	"os"
 	"path/filepath"
 	"sort"
@@ -210,9 +211,80 @@ func c11eDisableFault(t *testing.T, out *vh.Out) {
 	}
 }
 
+// c11eDeclaredDown: the only audit device is one DECLARED in the server configuration (the normal way to have one); the
+// node is restarted (seal + unseal) while the device cannot be initialised (`down` = 1: its log directory has become a
+// regular file). The device is still enabled — in the audit table, in the configuration —, so either the node refuses to
+// come up or whatever it serves is audited. Op line:
+//   declareddown <down> => unseal:<ok|refused>|listed:<0|1>|served:<0|1>|audited:<0|1>
+func c11eDeclaredDown(t *testing.T, out *vh.Out) {
+	for _, down := range []int{1, 0} {
+		out.Reset()
+		dir := t.TempDir()
+		logDir := filepath.Join(dir, "logs")
+		if err := os.Mkdir(logDir, 0o755); err != nil {
+			t.Fatal(err)
+		}
+		logPath := filepath.Join(logDir, "audit.log")
+		p := vhNewPhys(t)
+		c, keys, root := vhNewCore(t, p, nil, func(conf *CoreConfig) {
+			conf.AuditBackends["file"] = auditFile.Factory
+			conf.RawConfig = &server.Config{Audits: []*server.AuditDevice{{Type: "file", Path: "declared", Options: map[string]string{"file_path": logPath}}}}
+		})
+		if !c.auditBroker.IsRegistered("declared/") {
+			t.Fatal("declared audit device was not created")
+		}
+		if err := TestCoreSeal(c); err != nil {
+			t.Fatalf("seal: %v", err)
+		}
+		if down == 1 {
+			if err := os.RemoveAll(logDir); err != nil {
+				t.Fatal(err)
+			}
+			if err := os.WriteFile(logDir, nil, 0o600); err != nil {
+				t.Fatal(err)
+			}
+		}
+		un := "ok"
+		for _, key := range keys {
+			if _, err := TestCoreUnseal(c, TestKeyCopy(key)); err != nil {
+				un = "refused"
+				break
+			}
+		}
+		if c.Sealed() {
+			un = "refused"
+		}
+		listed, served, audited := "0", "0", "0"
+		if un == "ok" {
+			c.auditLock.RLock()
+			for _, e := range c.audit.Entries {
+				if e.Path == "declared/" {
+					listed = "1"
+				}
+			}
+			c.auditLock.RUnlock()
+			b0, _ := os.ReadFile(logPath)
+			if rcl, _ := vhReq(c, logical.ReadOperation, "sys/mounts", root, nil); rcl == "ok" {
+				served = "1"
+			}
+			b1, _ := os.ReadFile(logPath)
+			if len(b1) > len(b0) {
+				audited = "1"
+			}
+		}
+		res := "unseal:" + un + "|listed:" + listed + "|served:" + served + "|audited:" + audited
+		if listed == "1" && served == "1" && audited == "0" {
+			res += "!VIOL:the node came up with its configuration-declared audit device enabled but not running, and served a request without any audit entry#enabled-device-audits-nothing"
+		}
+		out.Op(res, "declareddown", vh.I(int64(down)))
+		_ = c.Shutdown()
+	}
+}
+
 func TestVerifC11E2E(t *testing.T) {
 	out := vh.Open()
 	defer out.Close()
+	c11eDeclaredDown(t, out)
 	c11eDisableFault(t, out)
 	c11eHeaders(t, out)
 	c11eHeadersStandby(t, out)
